@@ -282,7 +282,7 @@ def coq_eval_file(path: Path, timeout=600):
     return rc, out
 
 
-def coq_results(pid: str, header: str, case_terms: list[str], checker: str, shard: int = 400, tag="cases", timeout=600):
+def coq_results(pid: str, header: str, case_terms: list[str], checker: str, shard: int = 400, tag="cases", timeout=600, case_type: str | None = None):
     """Evaluate `checker case` (a bool) for every case inside Coq (vm_compute), sharded.
     Returns list[bool|None] (None = shard failed to compile) and a log of failures."""
     d = BUILD / pid
@@ -292,7 +292,9 @@ def coq_results(pid: str, header: str, case_terms: list[str], checker: str, shar
     files = []
     for k in range(0, len(case_terms), shard):
         chunk = case_terms[k:k + shard]
-        body = [header, "", "Definition cases := ["]
+        # case_type: the Coq type of one case; without it a shard whose cases all use the same constructor of a sum
+        # (only `inl ...`) cannot be typed
+        body = [header, "", f"Definition cases : list ({case_type}) := [" if case_type else "Definition cases := ["]
         body.append(";\n".join("  " + c for c in chunk))
         body.append("].")
         body.append(f"Definition results := List.map ({checker}) cases.")
